@@ -504,6 +504,12 @@ def asWrapper (j : Json) : R Wrapper :=
     | none => pure .unknown
 
 def opUnwrap (j : Json) : R Json := do
+  -- a base that is not a FITS WCS carries no FITS description
+  if (optField j "nonfits").isSome then
+    let chain ← field j "chain" >>= asList asWrapper
+    match unwrapAny none chain with
+    | .error e => return errJson e
+    | .ok _ => return Json.mkObj [("crpix", Json.null)]
   let crpix ← field j "crpix" >>= asList asRat
   let cdelt ← field j "cdelt" >>= asList asRat
   let pc ← field j "pc" >>= asList (asList asRat)
